@@ -95,6 +95,13 @@ def real_specs(chk: common.Check) -> list[dict]:
     # the script ends (by raising) while thousands of its events are still on their way: the child waits for the relay, and the
     # result reported afterwards is still that of the run
     add(statement="for i in range(3000):\n    pass\nraise RuntimeError('at the very end')\n", mode='continuous', expect='raise:RuntimeError', timeout=90)
+    # a thread that outlives the main script (not joined; the main script ends normally or by raising): the run ends when the thread does
+    outlive = ("import threading, time\n"
+               "def w():\n    time.sleep(0.3)\n    a = 1\n    b = 2\n    print('thread done', a + b)\n"
+               "t = threading.Thread(target=w)\nt.start()\n")
+    add(statement=outlive + "raise ValueError('main thread ends first')\n", policy=pol_next, trace_threads=True, expect='raise:ValueError')
+    add(statement=outlive + 'x = 1\n', policy=pol_next, trace_threads=True, expect='plain')
+    add(statement=outlive + 'x = 1\n', mode='continuous', trace_threads=True, expect='plain')
     # signals at an open prompt of the main thread (the child is quiescent there)
     ks = [1, 3] if chk.tier == 'quick' else [1, 2, 3, 4, 5]
     for kind in ('interrupt', 'terminate', 'kill'):
